@@ -1,4 +1,6 @@
 import PedVerif.Lemmas.CheckerEnvs
+import PedVerif.Props.C03
+import PedVerif.Props.C10
 /-!
 # C01 — the type checker is sound: a non-conforming value is never accepted
 
@@ -84,3 +86,41 @@ example : StrAnnGuard envU := by
     · simp [envU, ht] at h; subst h; exact ⟨1, by simp [envU], by simp [envU]; right; exact Nat.pos_of_ne_zero ht⟩
     · simp [envU, ht] at h; subst h; exact ⟨0, by simp [envU], by simp [envU]⟩
 end PedVerif.Checker
+
+
+/-! ## "equivalently, if a @pedantic function or a type-safe frozen dataclass accepts the value"
+
+The statement of C01 names the two other routes into the checker.  Both are corollaries of `sound_checkType` through the
+call-layer model (C03) and the dataclass model (C10); they are restated here in acceptance form so that C01's obligations
+cover all three routes, and the C01 check runs call-level and dataclass-level cases against them. -/
+namespace PedVerif.Call
+open PedVerif.Checker
+
+/-- a `@pedantic` call whose body ran was given only conforming values - at every parameter position, explicit, defaulted,
+    `*args` element or `**kwargs` value -/
+theorem pedantic_accepts_only_conforming (env : Env) (orc : Nat → Val → Raw) (horc : ∀ k v, orc k v ≠ .raisedTV) (f : Fn)
+    (args : List Val) (kw : List (NameId × Val)) (body : BodyOut) (ctx : SoundCtx env f args kw) (hmode : f.mode = .pedantic)
+    (hc : f.clazzFails args = false) (hran : (runCall env orc f args kw body).bodyRan = true) :
+    anyNonConforming env f args kw = false := by
+  cases h : anyNonConforming env f args kw with
+  | false => rfl
+  | true => rw [args_guard_body_never_runs env orc horc f args kw body ctx hmode hc h] at hran; cases hran
+
+/-- … and a value it hands back to the caller conforms to the return annotation -/
+theorem pedantic_returns_only_conforming (env : Env) (orc : Nat → Val → Raw) (f : Fn) (args : List Val) (kw : List (NameId × Val))
+    (r : Val) (hw : WfEnv env) (hs : StrAnnGuard env) (hmode : f.mode = .pedantic) (hfl : f.flavour ≠ .generator)
+    (a : Ann) (ha : f.retAnn = some a) (hns : a.noSpecial = true) (hr : r.wf env = true ∧ r.plain = true)
+    (hret : (runCall env orc f args kw (.ret r)).caller = .ret) : conforms env a r = true :=
+  result_guard env orc f args kw r hw hs hmode hfl a ha hns hr hret
+
+end PedVerif.Call
+
+namespace PedVerif.TypeSafe
+open PedVerif.Checker
+
+/-- a type-safe frozen dataclass whose validation passed holds only conforming field values -/
+theorem dataclass_accepts_only_conforming (env : Env) (orc : Nat → Val → Raw) (hw : WfEnv env) (hs : StrAnnGuard env)
+    (fvs : List (Field × Val)) (hok : FieldsSound env fvs) (h : validateTypes env orc fvs = none) : allConform env fvs = true :=
+  instance_fields_conform env orc hw hs fvs hok h
+
+end PedVerif.TypeSafe
